@@ -1,10 +1,10 @@
 /-
 C04 proofs — frame facts of one access of the repaired protocol, used to carry P1 (`Reach.listed`) across a step.
 -/
-import TbbVerif.Proofs.C04.ReachG
+import TbbVerif.Proofs.C04.ReachF
 
 namespace TbbVerif.C04
-variable {reg : List Nat} {s : St} {t : Nat}
+variable {r : List RF} {reg : List Nat} {s : St} {t : Nat}
 
 /-- the context a binder is about to push onto its own list -/
 def Pc.pushing : Pc → Option Nat
@@ -22,44 +22,59 @@ theorem force_aux4 (x p : Nat) : (Pc.bHintL x p).pushing = none ∧ (Pc.bHintL x
   · grind [Pc.syncing]
 
 /-- F1: list membership after a step -/
-theorem items_step {L x : Nat} (h : x ∈ (exec C reg s t).items L) :
+theorem items_step {L x : Nat} (h : x ∈ (exec (C r) reg s t).items L) :
     x ∈ s.items L ∨ (L = t ∧ (s.pc t).pushing = some x ∧ s.lmx t = none) := by
   revert h
   exec_cases_C
   all_goals (intro h; try simp [upd_apply] at h ⊢)
   all_goals grind [Pc.pushing, List.mem_cons, → List.mem_of_mem_erase]
 
-/-- F3: flags only go up (no reset in flight, copies only store "cancelled") -/
-theorem can_mono (hR : Reach reg s) {x : Nat} (h : s.can x = true) : (exec C reg s t).can x = true := by
-  have g0 := hR.noResetPc t
+/-- F3: `Vf m` facts survive every access (flags are only cleared by a reset, which makes the context stale for every
+stamp in the past; copies only store "cancelled"; the parent function only grows) -/
+theorem vf_mono (hS : Struct reg s) (hR : Reach reg s) {m a x : Nat} (hm : m ≤ s.clk)
+    (h : Vf s.par s.can s.rst s.oc m a x) :
+    Vf (exec (C r) reg s t).par (exec (C r) reg s t).can (exec (C r) reg s t).rst (exec (C r) reg s t).oc m a x := by
   have g1 := hR.copyTrue t
+  have l0 := @vf_cas reg s hS
   revert h
   exec_cases_C
-  all_goals (try rw [‹s.pc t = _›] at g0)
   all_goals (try rw [‹s.pc t = _›] at g1)
   all_goals (try simp [Pc.copyVal] at g1)
   all_goals (intro h; try simp [upd_apply] at h ⊢)
-  all_goals grind
+  all_goals grind [vf_upd_true, vf_reset, vf_exit]
 
-theorem G_step : (exec C reg s t).G = s.G ∨ (exec C reg s t).G = s.G + 1 := by
+theorem G_step : (exec (C r) reg s t).G = s.G ∨ (exec (C r) reg s t).G = s.G + 1 := by
   exec_cases_C
   all_goals simp
 
 /-- F4: another binder's pending re-copy is still pending -/
 theorem cover_other {w x : Nat} (hw : w ≠ t) (h : (s.pc w).coverOf s.G = some x) :
-    ((exec C reg s t).pc w).coverOf (exec C reg s t).G = some x := by
+    ((exec (C r) reg s t).pc w).coverOf (exec (C r) reg s t).G = some x := by
   rw [exec_pc_other hw]
-  rcases G_step (reg := reg) (s := s) (t := t) with e | e <;> rw [e]
+  rcases G_step (r := r) (reg := reg) (s := s) (t := t) with e | e <;> rw [e]
   · exact h
   · exact Pc.coverOf_mono h
 
 /-- F2a: ancestors of a context that already has left the `created` state do not change -/
-theorem anc_step_back (hS : Struct reg s) {x a : Nat} (hx : s.cst x ≠ .created) (h : Anc (exec C reg s t).par x a) :
+theorem anc_step_back (hS : Struct reg s) {x a : Nat} (hx : s.cst x ≠ .created) (h : Anc (exec (C r) reg s t).par x a) :
     Anc s.par x a := by
   have l0 := @anc_cas_back reg s hS
   revert h
   exec_cases_C
   all_goals (intro h; try simp [upd_apply] at h ⊢)
   all_goals grind
+
+/-- F7: a cancellation that is current after the step was current before it, or is the winning exchange of this step -/
+theorem cur_step_back (hR : Reach reg s) {a m : Nat} (h : Cur (exec (C r) reg s t).wst (exec (C r) reg s t).rst a m) :
+    Cur s.wst s.rst a m ∨ m = s.clk + 1 := by
+  have g0 := hR.wstLe
+  revert h
+  exec_cases_C
+  all_goals (intro h; try simp [upd_apply] at h ⊢)
+  all_goals grind [→ cur_upd_wst, → cur_upd_rst]
+
+theorem clk_step : s.clk ≤ (exec (C r) reg s t).clk := by
+  exec_cases_C
+  all_goals simp
 
 end TbbVerif.C04
